@@ -2,6 +2,7 @@ import A2Verif.Lemmas.ToolState
 import A2Verif.Lemmas.MinifyState
 import A2Verif.Gen.HashSites
 import A2Verif.Gen.ClockSites
+import A2Verif.Lemmas.ImageState
 import A2Verif.Model.Determinism
 /-!
 # C20, incidental state — the tool objects and early exits from hash iterations
@@ -159,5 +160,63 @@ open A2Verif.Model.Determinism in
 /-- the pinned decoder has no clock argument: the century is a function of the stored year -/
 example : centuryPinned 26 = 2026 ∧ centuryPinned 78 = 2078 ∧ centuryPinned 79 = 1979 ∧ centuryPinned 99 = 1999 ∧ centuryPinned 0 = 2000 := by
   decide
+
+/-! ## the head position of an image object
+
+"… or other incidental state": a nibble image object remembers where the last sector read left the head, and the next
+track reader starts there.  Read-only operations are `readOnlyOp : head → output × head` (`Model/ImageState.lean`); an
+OUTPUT may not depend on the head the earlier reads left behind. -/
+
+open A2Verif.ImageState in
+/-- the data a sector read returns is the same from every head position (the search goes around the whole track;
+address fields distinct) -/
+theorem sector_read_head_independent (t : Track) (hd : Distinct t) (h s : Nat) :
+    (readSector t h s).1 = (t.find? (fun x => x.1 == s)).map (·.2) :=
+  readSector_fst t hd h s
+
+open A2Verif.ImageState in
+/-- **Reads do not affect outputs**: if the track solution (`chs_map` / `chss_map`: geometry JSON) and the track dump
+(`to_nibbles`) rotate the disk to the reference bit first, then after EVERY history of read-only operations — sector
+reads that move the head, solutions, dumps — every read-only operation returns what it returns on a fresh object. -/
+theorem reads_do_not_affect_outputs (v : Variant) (hs : v.solutionResets = true) (hdm : v.dumpResets = true)
+    (t : Track) (hd : Distinct t) (h0 : Nat) (hist : List Op) (o : Op) :
+    (readOnlyOp v t (runOps v t h0 hist) o).1 = (readOnlyOp v t h0 o).1 := by
+  cases o with
+  | read s => simp [readOnlyOp, readSector_fst t hd]
+  | solution => simp [readOnlyOp, trackSolution, hs]
+  | dump => simp [readOnlyOp, trackDump, hdm]
+
+open A2Verif.ImageState in
+/-- **The track readers on the current tree**: `chs_map`, `chss_map` and `to_nibbles` of both track readers (5.25 and 3.5
+inch) call `self.reset()` before anything reads the head position — read from the current source — hence
+`reads_do_not_affect_outputs` applies to the code as it is now.  Fails to check when one of the resets disappears (seeded
+C20-7 drops the one in `chss_map`, which the images call directly). -/
+theorem image_reads_current_tree :
+    Variant.current525 = ⟨true, true⟩ ∧ Variant.current35 = ⟨true, true⟩ ∧
+    ∀ (t : Track), Distinct t → ∀ (h0 : Nat) (hist : List Op) (o : Op),
+      (readOnlyOp Variant.current525 t (runOps Variant.current525 t h0 hist) o).1 = (readOnlyOp Variant.current525 t h0 o).1 ∧
+      (readOnlyOp Variant.current35 t (runOps Variant.current35 t h0 hist) o).1 = (readOnlyOp Variant.current35 t h0 o).1 := by
+  have h5 : Variant.current525 = ⟨true, true⟩ := by decide
+  have h3 : Variant.current35 = ⟨true, true⟩ := by decide
+  refine ⟨h5, h3, ?_⟩
+  intro t hd h0 hist o
+  rw [h5, h3]
+  exact ⟨reads_do_not_affect_outputs _ rfl rfl t hd h0 hist o, reads_do_not_affect_outputs _ rfl rfl t hd h0 hist o⟩
+
+open A2Verif.ImageState in
+/-- without the reset the geometry of a track depends on which sector was read before: three sectors `0 1 2`; a fresh
+object lists `0,1,2`, after reading sector 0 the list is `1,2,0` -/
+theorem track_solution_without_reset_depends_on_head :
+    ¬ ∀ (t : Track) (hist : List Op), Distinct t →
+        (readOnlyOp ⟨false, true⟩ t (runOps ⟨false, true⟩ t 0 hist) .solution).1 = (readOnlyOp ⟨false, true⟩ t 0 .solution).1 := by
+  intro h
+  have := h [(0, 10), (1, 11), (2, 12)] [.read 0] (by unfold Distinct; decide)
+  revert this
+  decide
+
+open A2Verif.ImageState in
+example : (readOnlyOp ⟨false, true⟩ [(0, 10), (1, 11), (2, 12)] (runOps ⟨false, true⟩ [(0, 10), (1, 11), (2, 12)] 0 [.read 0]) .solution).1 = .ids [1, 2, 0] ∧
+    (readOnlyOp ⟨true, true⟩ [(0, 10), (1, 11), (2, 12)] (runOps ⟨true, true⟩ [(0, 10), (1, 11), (2, 12)] 0 [.read 0, .read 2]) .solution).1 = .ids [0, 1, 2] ∧
+    (readOnlyOp ⟨true, true⟩ [(0, 10), (1, 11), (2, 12)] 2 (.read 1)).1 = .data (some 11) := by decide
 
 end A2Verif.C20
